@@ -17,7 +17,7 @@ NET_CFGS = {"Lazy": [], "LazySel": ["network/maxmin-selective-update:yes"], "Ful
 # (Lazy with selective update off is refused by the model constructors: "You cannot disable ... selective update when using the lazy update
 #  mechanism"; it is not a legal combination)
 import os
-# classes of known findings still open in /repo, excluded by construction so that the search goes on behind them (known/C19.json):
+# classes of known findings still open in /repo, excluded by construction so that the search goes on behind them (known_findings.json (C19)):
 #   ti-profile-start cpu/optim:TI + a speed profile whose first point is not at date 0 (integrated wrongly)
 # (fixed meanwhile, exclusions lifted: ti-ctl = TI + suspend / resume / priority change; lazy-same-prio = lazy CPU + update_priority() with
 #  the priority the execution already has; the switches stay so that an old tree can still be searched behind them)
@@ -323,7 +323,7 @@ class C19(core.Prop):
     assumptions = ["tolerance 2 x (1 + number of earlier simulation steps shorter than 2e-9 s) x 1e-9 s + 1e-12 x date: precision/timing is the granularity below which the models legally merge dates",
                    "the default configuration is the reference; a defect common to all update algorithms is not visible to this differential "
                    "(C20/C21 look at absolute values)",
-                   "known findings excluded by construction (counted in known/C19.json, replayed from replays/C19): TI with a speed profile "
+                   "known findings excluded by construction (counted in known_findings.json (C19), replayed from replays/C19): TI with a speed profile "
                    "whose first point is not at date 0; TI with a pstate change",
                    "scenarios run with the interpreter's speed_change record off (\"quiet\":[\"onoff\"]): Host::get_available_speed() segfaults "
                    "under cpu/optim:TI on a host without speed profile (known finding, replayed)",
